@@ -189,12 +189,23 @@ func cmdCheck(args []string) int {
 			return false
 		}
 	}
-	// keep only the obligations of this property
+	// keep the obligations of this property. An unselected obligation that precedes a selected one in the same function
+	// is kept as a supporting obligation: the selected ones assume it (assume-after-assert), so it is solved as well and,
+	// should it fail, the selected obligations after it are re-solved without its fact.
 	for _, r := range results {
 		f := filter(r)
-		var kept []*Obl
-		for _, o := range r.Obls {
+		lastSel := -1
+		for i, o := range r.Obls {
 			if f(o) {
+				lastSel = i
+			}
+		}
+		var kept []*Obl
+		for i, o := range r.Obls {
+			if f(o) {
+				kept = append(kept, o)
+			} else if i < lastSel && o.FactIdx >= 0 {
+				o.Support = true
 				kept = append(kept, o)
 			}
 		}
@@ -212,7 +223,57 @@ func cmdCheck(args []string) int {
 	if *tier == "thorough" {
 		quickSec, fullSec, all = 60, 60, true
 	}
-	solveAll(results, work, quickSec, fullSec, all, 16, nil)
+	solveAll(results, work, quickSec, fullSec, all, 10, nil)
+	// failed supporting obligations: re-solve the selected obligations that assumed them, without their facts
+	nSupport, nSupportFailed, nResolved := 0, 0, 0
+	for _, r := range results {
+		excl := map[int]bool{}
+		var firstFailed *Obl
+		var redo []*Obl
+		for _, o := range r.Obls {
+			if o.Support {
+				nSupport++
+				if o.Result != "unsat" {
+					nSupportFailed++
+					excl[o.FactIdx] = true
+					if firstFailed == nil {
+						firstFailed = o
+					}
+				}
+				continue
+			}
+			if firstFailed != nil && o.Result == "unsat" {
+				redo = append(redo, o)
+			}
+		}
+		if len(redo) == 0 {
+			continue
+		}
+		for _, o := range redo {
+			o.Excl = excl
+			o.Result = ""
+		}
+		nResolved += len(redo)
+		saved := r.Obls
+		r.Obls = redo
+		solveAll([]*FuncResult{r}, work, quickSec, fullSec, all, 10, nil)
+		r.Obls = saved
+		for _, o := range redo {
+			if o.Result != "unsat" {
+				o.DependsOn = firstFailed.Name
+			}
+		}
+	}
+	// supporting obligations are not part of the property: drop them from the report
+	for _, r := range results {
+		var kept []*Obl
+		for _, o := range r.Obls {
+			if !o.Support {
+				kept = append(kept, o)
+			}
+		}
+		r.Obls = kept
+	}
 	tSolve := time.Since(t0).Seconds()
 	// vacuity: the facts of each function must be satisfiable at entry (cover)
 	covers := runCovers(results, work)
@@ -274,7 +335,11 @@ func cmdCheck(args []string) int {
 		if rp := tryReplay(id, &def, o, path); rp {
 			suffix = ""
 		}
-		lines = append(lines, fmt.Sprintf("VIOLATION property=%s replay=%s obligation=%s result=%s%s", id, path, o.Name, o.Result, suffix))
+		dep := ""
+		if o.DependsOn != "" {
+			dep = " needs-failed-supporting-obligation=" + o.DependsOn
+		}
+		lines = append(lines, fmt.Sprintf("VIOLATION property=%s replay=%s obligation=%s result=%s%s%s", id, path, o.Name, o.Result, dep, suffix))
 	}
 	// bounded stand-ins (never counted as discharged)
 	var boundedOut []map[string]any
@@ -298,6 +363,7 @@ func cmdCheck(args []string) int {
 	wall := time.Since(t0).Seconds()
 	writeEvidence(id, *tier, seed, &def, results, covers, wall, violations, undecided, map[string]any{
 		"total": total, "discharged": discharged, "backends": backends, "solver_s": solverSecs, "bounded": boundedOut,
+		"support": nSupport, "support_failed": nSupportFailed, "resolved_without_support": nResolved,
 	})
 	for _, l := range lines {
 		fmt.Println(l)
@@ -310,7 +376,7 @@ func cmdCheck(args []string) int {
 		}
 	}
 	fmt.Printf("phases: load+vcgen=%.1fs solve=%.1fs rest=%.1fs\n", tGen, tSolve-tGen, time.Since(t0).Seconds()-tSolve)
-	fmt.Printf("property=%s tier=%s functions=%d obligations=%d discharged=%d wall=%.1fs\n", id, *tier, len(results), total, discharged, wall)
+	fmt.Printf("property=%s tier=%s functions=%d obligations=%d discharged=%d support=%d support-failed=%d wall=%.1fs\n", id, *tier, len(results), total, discharged, nSupport, nSupportFailed, wall)
 	if len(undecided) > 0 {
 		for _, u := range undecided {
 			fmt.Println("UNDECIDED property=" + id + " reason=" + u)
@@ -361,28 +427,28 @@ func runCovers(results []*FuncResult, work string) []coverResult {
 		wg.Add(1)
 		go func() {
 			defer wg.Done()
-		// all facts of the function together with "some exit is reached"
-		last := r.Obls[len(r.Obls)-1]
-		var sb strings.Builder
-		sb.WriteString(prelude)
-		for _, d := range r.Decls {
-			sb.WriteString(d + "\n")
-		}
-		for _, f := range r.Facts[:last.NFacts] {
-			sb.WriteString("(assert " + f.String() + ")\n")
-		}
-		sb.WriteString("(assert " + last.PC.String() + ")\n(check-sat)\n")
-		h := sha256.Sum256([]byte("cover:" + r.Name))
-		file := filepath.Join(work, fmt.Sprintf("cover-%x.smt2", h[:6]))
-		os.WriteFile(file, []byte(sb.String()), 0o644)
-		res := runSolver(solvers[0], file, 3)
-		if res.result == "unsat" {
-			os.MkdirAll(filepath.Join(verifDir(), "work", "cover-unsat"), 0o755)
-			os.WriteFile(filepath.Join(verifDir(), "work", "cover-unsat", filepath.Base(file)), []byte(sb.String()), 0o644)
-		}
-		mu.Lock()
-		out = append(out, coverResult{"cover[" + r.Name + "]", res.result})
-		mu.Unlock()
+			// all facts of the function together with "some exit is reached"
+			last := r.Obls[len(r.Obls)-1]
+			var sb strings.Builder
+			sb.WriteString(prelude)
+			for _, d := range r.Decls {
+				sb.WriteString(d + "\n")
+			}
+			for _, f := range r.Facts[:last.NFacts] {
+				sb.WriteString("(assert " + f.String() + ")\n")
+			}
+			sb.WriteString("(assert " + last.PC.String() + ")\n(check-sat)\n")
+			h := sha256.Sum256([]byte("cover:" + r.Name))
+			file := filepath.Join(work, fmt.Sprintf("cover-%x.smt2", h[:6]))
+			os.WriteFile(file, []byte(sb.String()), 0o644)
+			res := runSolver(solvers[0], file, 3)
+			if res.result == "unsat" {
+				os.MkdirAll(filepath.Join(verifDir(), "work", "cover-unsat"), 0o755)
+				os.WriteFile(filepath.Join(verifDir(), "work", "cover-unsat", filepath.Base(file)), []byte(sb.String()), 0o644)
+			}
+			mu.Lock()
+			out = append(out, coverResult{"cover[" + r.Name + "]", res.result})
+			mu.Unlock()
 		}()
 	}
 	wg.Wait()
@@ -490,6 +556,8 @@ func writeEvidence(id, tier string, seed int, def *PropDef, results []*FuncResul
 		if b, ok := sums["bounded"]; ok && b != nil {
 			cov["bounded"] = b
 		}
+		cov["supporting_obligations"] = map[string]any{"solved": sums["support"], "failed": sums["support_failed"], "selected_resolved_without_failed_support": sums["resolved_without_support"],
+			"note": "obligations of the selected functions that are outside the property's selection but assumed by selected obligations after them; a failed one is not reported itself, the selected obligations after it are re-solved without its fact"}
 	}
 	var cv []map[string]string
 	for _, c := range covers {
